@@ -9635,8 +9635,9 @@ def _write_node(node, xml_tree=None, viewport_transform=None):
                 m = Matrix(vt)
                 m.inverse()
                 vt = m
-        except ValueError:
-            pass
+        except (ValueError, ZeroDivisionError):
+            # A size that is not in user units, or a size of zero, there is no viewport transform to undo.
+            vt = None
         if viewport_transform:
             # Embedded, the content also carries the viewport transforms of the enclosing svg elements.
             vt = viewport_transform * vt if vt else viewport_transform
